@@ -177,8 +177,8 @@ func checkC17(c *vh.Ctx) {
 	var mu sync.Mutex
 	vh.Parallel(nSel, 16, func(i int) {
 		s := &sel[i]
-		so, se, err := vh.RunTool(60*time.Second, c.Scratch, h2g, "-module", "batch", "-concurrent", strconv.Itoa(1+i%5),
-			"-batch", batchFile(s.n), "-lines", fmt.Sprintf("%d-%d", s.a, s.b))
+		so, se, err := vh.RunTool(60*time.Second, c.Scratch, h2g, optionOrder(i, []string{"-module", "batch"}, []string{"-concurrent", strconv.Itoa(1 + i%5)},
+			[]string{"-batch", batchFile(s.n)}, []string{"-lines", fmt.Sprintf("%d-%d", s.a, s.b)})...)
 		if err != nil {
 			s.err = fmt.Sprintf("%v %s", err, se)
 			return
@@ -329,4 +329,22 @@ func min(a, b int) int {
 		return a
 	}
 	return b
+}
+
+// optionOrder: the command-line options of the simulator in the k-th of their orders (the options are
+// independent of each other; a job script may write them in any order)
+func optionOrder(k int, groups ...[]string) []string {
+	idx := make([]int, len(groups))
+	for i := range idx {
+		idx[i] = i
+	}
+	// k-th permutation in factorial number system
+	var out []string
+	for n := len(groups); n > 0; n-- {
+		j := k % n
+		k /= n
+		out = append(out, groups[idx[j]]...)
+		idx = append(idx[:j], idx[j+1:]...)
+	}
+	return out
 }
